@@ -99,6 +99,16 @@ from .analyzer import (
 )
 
 
+def _free_backup_path(path: str) -> str:
+    """First of path.bak, path.bak.1, path.bak.2, ... that does not exist yet (never overwrite a backup)."""
+    candidate = path + '.bak'
+    n = 0
+    while os.path.exists(candidate):
+        n += 1
+        candidate = f"{path}.bak.{n}"
+    return candidate
+
+
 def _migrate_csv_to_rules(csv_file: str, config_dir: str, backup: bool = True) -> bool:
     """
     Migrate merchant_categories.csv to merchants.rules format.
@@ -106,7 +116,7 @@ def _migrate_csv_to_rules(csv_file: str, config_dir: str, backup: bool = True) -
     The steps are ordered so that an interruption at any point leaves a budget that
     still classifies with the user's rules: the new file is written under a temporary
     name and renamed into place, settings.yaml is pointed at it, and only then is the
-    CSV moved away.
+    CSV moved away. No existing file is overwritten.
 
     Args:
         csv_file: Path to the CSV file
@@ -128,6 +138,9 @@ def _migrate_csv_to_rules(csv_file: str, config_dir: str, backup: bool = True) -
         # Write new file under a temporary name and rename it into place
         new_file = os.path.join(config_dir, 'merchants.rules')
         tmp_file = new_file + '.tmp'
+        if os.path.exists(new_file):
+            # keep a merchants.rules that is already there
+            shutil.move(new_file, _free_backup_path(new_file))
         with open(tmp_file, 'w', encoding='utf-8') as f:
             f.write(content)
         os.replace(tmp_file, new_file)
@@ -148,8 +161,9 @@ def _migrate_csv_to_rules(csv_file: str, config_dir: str, backup: bool = True) -
 
         # Backup old file last: until here the budget still classifies with the CSV
         if backup and os.path.exists(csv_file):
-            shutil.move(csv_file, csv_file + '.bak')
-            print(f"  {C.GREEN}✓{C.RESET} Backed up: merchant_categories.csv → .bak")
+            backup_file = _free_backup_path(csv_file)
+            shutil.move(csv_file, backup_file)
+            print(f"  {C.GREEN}✓{C.RESET} Backed up: merchant_categories.csv → {os.path.basename(backup_file)}")
 
         return True
     except Exception as e:
